@@ -123,6 +123,96 @@ def gen_rs(rng, ss, fast, maxl, side):
     return "rs " + " ".join("%s=%s" % kv for kv in f.items())
 
 
+def stored_region(k):
+    """what tj3SetCroppingRegion stores for a hist case (validated against image A at scale n1/d1)"""
+    g = lambda n, d=0: int(k.get(n, d))
+    x, y, w, h = g("cx"), g("cy"), g("cw"), g("ch")
+    if not (x or y or w or h):
+        return (0, 0, 0, 0)
+    sf = (g("n1", 1), g("d1", 1))
+    sw, sh = scaled(g("wA"), sf), scaled(g("hA"), sf)
+    if x % scaled(MCUW[g("ssA")], sf):
+        return (0, 0, 0, 0)
+    w = w or sw - x
+    h = h or sh - y
+    if w <= 0 or h <= 0 or x + w > sw or y + h > sh:
+        return (0, 0, 0, 0)
+    return (x, y, w, h)
+
+
+def hist_final(k):
+    g = lambda n, d=0: int(k.get(n, d))
+    if g("same"):
+        return g("wA"), g("hA"), g("ssA")
+    return g("w"), g("h"), g("ss")
+
+
+def hist_valid(k):
+    """is the stored region valid for the image and scaling factor actually decompressed?"""
+    g = lambda n, d=0: int(k.get(n, d))
+    x, y, w, h = stored_region(k)
+    if not (x or y or w or h):
+        return True
+    fw, fh, fss = hist_final(k)
+    sf = (g("num", 1), g("den", 1))
+    sw, sh = scaled(fw, sf), scaled(fh, sf)
+    return x % scaled(MCUW[fss], sf) == 0 and x + w <= sw and y + h <= sh
+
+
+def gen_hist(rng, side, bottom_budget):
+    """header(A), scale 1, region, scale 2, [header(F)], decompress(F) on one handle"""
+    for _ in range(50):
+        bits = rng.choice([8, 8, 8, 12])
+        ssA = rng.choice([0, 0, 1, 2, 3, 4, 5, 6])
+        wA, hA = rng.range(17, 96), rng.range(9, 72)
+        sf1 = rng.choice(SF) if rng.chance(1, 2) else (1, 1)
+        same = 1 if rng.chance(2, 5) else 0
+        if same:
+            w, h, ss = wA, hA, ssA
+            sf2 = rng.choice(SF)
+        else:
+            ss = rng.choice([0, 1, 2, 3, 4, 5, 6])
+            w = wA if rng.chance(1, 2) else rng.range(1, 96)
+            h = hA if rng.chance(1, 2) else rng.range(1, 72)
+            sf2 = sf1 if rng.chance(1, 2) else rng.choice(SF)
+        swA, shA = scaled(wA, sf1), scaled(hA, sf1)
+        step = scaled(MCUW[ssA], sf1)
+        cx = rng.choice(list(range(0, swA, step)))
+        cy = rng.below(shA)
+        cw = 0 if rng.chance(1, 3) else rng.range(1, swA - cx)
+        ch = 0 if rng.chance(1, 3) else rng.range(1, shA - cy)
+        f = dict(bits=bits, wA=wA, hA=hA, ssA=ssA, n1=sf1[0], d1=sf1[1], cx=cx, cy=cy, cw=cw, ch=ch, num=sf2[0], den=sf2[1],
+                 same=same, w=w, h=h, ss=ss, pf=rng.choice([0, 1, 2, 3, 6, 7, 9]), pad=rng.choice(PADS), bu=rng.below(2), side=side,
+                 fast=rng.below(2))
+        k = {a: str(b) for a, b in f.items()}
+        x_, y_, w_, h_ = stored_region(k)
+        fw, fh, _ = hist_final(k)
+        sh = scaled(fh, sf2)
+        if (y_ or h_) and y_ <= sh < y_ + h_:          # bottom edge below the final image
+            if bottom_budget[0] <= 0:
+                continue
+            bottom_budget[0] -= 1
+        return "hist " + " ".join("%s=%s" % kv for kv in f.items())
+    return None
+
+
+BIG = [(8, 2056, 1 << 20), (5, 1100, (1 << 21) + 24), (3, 700, (1 << 22) - 4)]     # width, rows, pitch (bytes)
+
+
+def gen_big(rng):
+    out = []
+    for api in ("cmp", "dec", "encp", "decp"):
+        for bu in (0, 1):
+            w, h, pitch = rng.choice(BIG) if rng.chance(1, 2) else BIG[0]
+            pf = rng.choice([0, 2, 7])
+            f = dict(api=api, w=w, h=h, ss=rng.choice([0, 2, 1]), pf=pf, pad=pitch - w * PIXSZ[pf], bu=bu,
+                     s0=rng.choice([pitch, 20000]), s1=rng.choice([2 * pitch, 20000]), s2=rng.choice([pitch, 30000]))
+            if api.endswith("p") and rng.chance(1, 2):
+                f["s0"] = pitch
+            out.append("big " + " ".join("%s=%s" % kv for kv in f.items()))
+    return out
+
+
 def gen_cases(ctx):
     rng = ctx.rng
     cases = []
@@ -153,6 +243,18 @@ def gen_cases(ctx):
                 for maxl in (1, 2, 3, 4, 5, rng.range(6, 20)):
                     for side in (0, 1):
                         cases.append(gen_rs(rng, ss, fast, maxl, side))
+    # parameter histories on one handle; huge pitches on sparse mappings
+    try:
+        bottom_checked = "dec_chk_bottom : bool := true" in open(os.path.join(core.COQ, "gen", "GenAlign.v")).read()
+    except OSError:
+        bottom_checked = False
+    budget = [10 ** 9 if bottom_checked else 3]      # a missing bottom check makes such a case cost a time-out
+    for rep in range(ctx.n(300, 3000)):
+        c = gen_hist(rng, rep % 2, budget)
+        if c:
+            cases.append(c)
+    for rep in range(ctx.n(1, 4)):
+        cases += gen_big(rng)
     # the SIMD kernels themselves, every width, both guard sides
     for isa in ("sse2", "avx2"):
         for ps in (3, 4):
@@ -171,8 +273,10 @@ def parse_bufs(part):
         if tok[0] == "b" and "=" in tok and ":" in tok:
             bid = int(tok[1:tok.index("=")])
             size, ivs = tok[tok.index("=") + 1:].split(":", 1)
-            if ivs == "r":
+            if ivs == "r" or ivs == "full":
                 out[bid] = (int(size), "r")
+            elif ivs.startswith("partial"):
+                out[bid] = (int(size), "partial")
             elif ivs == "-":
                 out[bid] = (int(size), [])
             else:
@@ -189,7 +293,17 @@ def documented_rows(line):
     kind = line.split()[0]
     api = k.get("api", "")
     out = {}
-    if kind == "rs":
+    if kind in ("rs", "big"):
+        return out
+    if kind == "hist":
+        x_, y_, w_, h_ = stored_region(k)
+        fw, fh, _ = hist_final(k)
+        sf = (g("num", 1), g("den", 1))
+        ow, oh = (w_, h_) if (x_ or y_ or w_ or h_) else (scaled(fw, sf), scaled(fh, sf))
+        ps = PIXSZ[g("pf")]
+        ssz = 2 if g("bits", 8) > 8 else 1
+        pitch = ow * ps if g("pad") < 0 else ow * ps + g("pad")
+        out[0] = [(0, oh, pitch * ssz, ow * ps * ssz)]
         return out
     if kind == "kern":
         ps = int(k["k"][-1])
@@ -293,6 +407,20 @@ def describe(line, level):
     kind = line.split()[0]
     if kind == "kern":
         return "SIMD kernel %s/%s, %s columns, guard side %s" % (k.get("k"), k.get("fn"), k.get("n"), "high" if k.get("side") == "1" else "low")
+    if kind == "hist":
+        return ("one handle: tj3DecompressHeader(%sx%s subsamp=%s %s-bit), tj3SetScalingFactor(%s/%s), tj3SetCroppingRegion({%s,%s,%s,%s}), "
+                "tj3SetScalingFactor(%s/%s), %stj3Decompress%s(pixelFormat=%s pitch=w*ps%s bottomUp=%s fastUpsample=%s) guard=%s simd=%s" % (
+                    k.get("wA"), k.get("hA"), k.get("ssA"), k.get("bits"), k.get("n1"), k.get("d1"), k.get("cx"), k.get("cy"), k.get("cw"), k.get("ch"),
+                    k.get("num"), k.get("den"),
+                    "" if k.get("same") == "1" else "tj3DecompressHeader(%sx%s subsamp=%s), " % (k.get("w"), k.get("h"), k.get("ss")),
+                    k.get("bits"), k.get("pf"), ("+" + k.get("pad", "0")) if int(k.get("pad", 0)) >= 0 else " (pitch=0)", k.get("bu"), k.get("fast"),
+                    "high" if k.get("side") == "1" else "low", level))
+    if kind == "big":
+        return "%s width=%s height=%s pitch=%d bytes (sparse mapping, rows up to %d bytes from the start) pixelFormat=%s subsamp=%s bottomUp=%s plane strides=pw+(%s,%s,%s) simd=%s" % (
+            {"cmp": "tj3Compress8", "dec": "tj3Decompress8", "encp": "tj3EncodeYUVPlanes8", "decp": "tj3DecodeYUVPlanes8"}.get(k.get("api")),
+            k.get("w"), k.get("h"), int(k.get("w")) * PIXSZ[int(k.get("pf"))] + int(k.get("pad")),
+            (int(k.get("h")) - 1) * (int(k.get("w")) * PIXSZ[int(k.get("pf"))] + int(k.get("pad"))), k.get("pf"), k.get("ss"), k.get("bu"),
+            k.get("s0"), k.get("s1"), k.get("s2"), level)
     if kind == "rs":
         return "jpeg_read_scanlines(max_lines=%s) loop, %sx%s subsamp=%s pixelFormat=%s do_fancy_upsampling=%s scale=%s/%s guard=%s simd=%s" % (
             k.get("max"), k.get("w"), k.get("h"), k.get("ss"), k.get("pf"), "0" if k.get("fast") == "1" else "1",
@@ -315,6 +443,17 @@ def judge(ctx, line, level, impl):
     k = kvs(line)
     sigbase = "%s:%s" % (kind, k.get("api", k.get("k", "")) + ("/" + k["fn"] if "fn" in k else ""))
     rep = {"case": line, "level": level, "impl": impl, "config": describe(line, level)}
+    if impl.startswith("hang"):
+        ctx.violation("the call does not return (timer expired): %s" % describe(line, level), rep, signature="hang:%s" % kind)
+        return True
+    if impl.startswith("err rej-wrote"):
+        ctx.violation("the call returned -1 but had already written to the destination (%s): %s" % (impl, describe(line, level)), rep,
+                      signature="rejected-but-wrote:%s:%s" % (kind, level))
+        return True
+    if kind == "hist" and impl.startswith("ok") and not hist_valid(k):
+        ctx.violation("a cropping region that is not valid for the image / scaling factor actually decompressed was accepted (returned 0): %s -> %s"
+                      % (describe(line, level), impl[:160]), rep, signature="stale-region-accepted:" + level)
+        return True
     if impl.startswith("over"):
         o = kvs("x " + impl[5:])
         ctx.violation("jpeg_read_scanlines(max_lines=%s) called at scanline %s returned %s and wrote through scanlines[%s], a row it was not given: %s"
@@ -345,6 +484,8 @@ def judge(ctx, line, level, impl):
     for bid, (size, ivs) in bufs.items():
         if ivs == "r":
             continue
+        if ivs == "partial":
+            continue          # reported through the model comparison (a row byte never written)
         x = outside_documented(ivs, rows.get(bid, []))
         if x is not None:
             ctx.violation("byte %d of buffer %d is outside every documented row (row padding / after the last row) but was modified: %s"
